@@ -2311,7 +2311,7 @@ class Parameters:
         for method, queued, on_init, constant, dynamic in type(obj).param._depends['watch']:
             # On initialization set up constant watchers; otherwise
             # clean up previous dynamic watchers for the updated attribute
-            dynamic = [d for d in dynamic if attribute is None or d.spec.split(".")[0] == attribute]
+            affected = [d for d in dynamic if attribute is None or d.spec.split(".")[0] == attribute]
             if init:
                 constant_grouped = defaultdict(list)
                 for dep in _resolve_mcs_deps(obj, constant, []):
@@ -2321,7 +2321,9 @@ class Parameters:
                 m = getattr(self_.self, method)
                 if on_init and m not in init_methods:
                     init_methods.append(m)
-            elif dynamic:
+            elif affected:
+                # All dynamic watchers of the method are removed, so all
+                # its dynamic dependencies are resolved again below
                 for w in obj._param__private.dynamic_watchers.pop(method, []):
                     (w.cls if w.inst is None else w.inst).param.unwatch(w)
             else:
